@@ -18,6 +18,7 @@ pub fn def() -> PropDef {
         assumptions: &[
             "decides the x86 selection logic; the AArch64 branch is cfg-ed out on this host",
             "calibration: explicit Avx2 / Ssse3 engines must produce their trace bits, otherwise the check is inconclusive (exit 2), never a violation",
+            "the trace names the entry point that ran, not the instructions it contains: that each #[target_feature] entry point is compiled for the ISA its hook names (attribute and hook constant sit on adjacent lines) is taken from the source, not tested - no CPU without AVX2 and no instruction-level emulator is available here (seeded change C14r5, a wrong attribute, is out of reach of generated inputs)",
         ],
         parts,
     }
